@@ -134,6 +134,8 @@ type analysis struct {
 	HasLocks bool
 	// Gos: every go statement in scope (gofacts.go)
 	Gos []goFact
+	// Accepted: size-dependent partial operations accepted by an idiom or the allow list
+	Accepted []acceptedSite
 	// MayNil: functions (FullName#result) that may return a nil pointer / interface with a nil error
 	MayNil []string
 	// Pages: iterators that turn pages (gofacts.go)
@@ -192,7 +194,7 @@ func analyseScope(repo string, scope map[string]func(file string) bool, allowTex
 		rel := strings.TrimPrefix(strings.TrimPrefix(l.Path, modPath), "/")
 		seen[rel] = true
 		filter := scope[rel]
-		x := &xl{fset: fset, l: l, repo: repo, sites: &an.Sites, allow: al, ctorMaps: ctorMapFields(l), mayNil: summaries}
+		x := &xl{fset: fset, l: l, repo: repo, sites: &an.Sites, allow: al, ctorMaps: ctorMapFields(l), mayNil: summaries, acceptedOut: &an.Accepted}
 		if rel == "" {
 			an.Locks = lockFactsOf(l, only("session.go"), fset)
 			an.HasLocks = true
@@ -259,6 +261,7 @@ func Facts(repo string) (string, error) {
 		b.WriteString(leanLockFacts(nil, err))
 		b.WriteString(leanGoFacts(nil, false))
 		b.WriteString(leanPageTurns(nil, false))
+		b.WriteString("def acceptedSizes : List (String × String × String) := []\n")
 		b.WriteString("end XmppModel.Generated.C09\n")
 		return b.String(), nil
 	}
@@ -291,6 +294,15 @@ func Facts(repo string) (string, error) {
 	}
 	b.WriteString(leanGoFacts(an.Gos, true))
 	b.WriteString(leanPageTurns(an.Pages, true))
+	b.WriteString("/-- size-dependent partial operations accepted without a hazard: (function, kind, expression text) -/\n")
+	b.WriteString("def acceptedSizes : List (String × String × String) := [\n")
+	for i, a := range an.Accepted {
+		if i > 0 {
+			b.WriteString(",\n")
+		}
+		fmt.Fprintf(&b, "  (%q, %q, %q)", a.Fn, a.Kind, a.Expr)
+	}
+	b.WriteString("]\n")
 	b.WriteString("\n/-! Sites:\n")
 	for _, s := range an.Sites {
 		if s.Kind == "loop" {
